@@ -1,6 +1,7 @@
 import SigpyVerif.Model.C16
 import SigpyVerif.Lemmas.Py
 import Mathlib.Algebra.BigOperators.Group.List.Basic
+import Mathlib.Algebra.BigOperators.Group.Finset.Basic
 import Mathlib.Algebra.Ring.Defs
 import Mathlib.Tactic.Ring
 import Mathlib.Tactic.Linarith
@@ -60,11 +61,19 @@ theorem numCoilBatches_nat (n B : Nat) (hB : 0 < B) :
   rw [this]
   norm_cast
 
+/-- the generated slice bounds are `[c·b, (c+1)·b)` — proved by `ring`, so an algebraically equal rewrite of the
+    source expressions (`c*b + b`, `b*(c+1)`, …) leaves every theorem below intact -/
+theorem senseMps_lo_hi (c b n : Int) : Gen.senseMpsLo c b n = c * b ∧ Gen.senseMpsHi c b n = (c + 1) * b := by
+  constructor
+  · unfold Gen.senseMpsLo; ring
+  · unfold Gen.senseMpsHi; ring
+
 /-- slicing with the generated bounds of batch `k` -/
 theorem pySlice_batch {β : Type} (l : List β) (k B n : Nat) :
     pySlice l (Gen.senseMpsLo (k : Int) (B : Int) (n : Int)) (Gen.senseMpsHi (k : Int) (B : Int) (n : Int))
       = (l.drop (k * B)).take ((k + 1) * B - k * B) := by
-  unfold pySlice Gen.senseMpsLo Gen.senseMpsHi
+  rw [(senseMps_lo_hi _ _ _).1, (senseMps_lo_hi _ _ _).2]
+  unfold pySlice
   have e1 : ((k : Int) * (B : Int)).toNat = k * B := by
     have : ((k : Int) * (B : Int)) = ((k * B : Nat) : Int) := by push_cast; ring
     rw [this, Int.toNat_natCast]
@@ -99,5 +108,96 @@ theorem pySlice_map {β γ : Type} (f : β → γ) (a : List β) (lo hi : Int) :
     (pySlice a lo hi).map f = pySlice (a.map f) lo hi := by
   unfold pySlice
   rw [List.map_take, List.map_drop]
+
+/-! ### `Hstack` of per-batch adjoints: splitting the k-space rows by the batches' row counts -/
+
+theorem pySlice_length {β : Type} (a : List β) (lo hi : Int) :
+    (pySlice a lo hi).length = min (hi.toNat - lo.toNat) (a.length - lo.toNat) := by
+  unfold pySlice; simp
+
+/-- two lists of the same length have slices of the same length -/
+theorem pySlice_length_congr {β γ : Type} (a : List β) (b : List γ) (h : a.length = b.length) (lo hi : Int) :
+    (pySlice a lo hi).length = (pySlice b lo hi).length := by
+  rw [pySlice_length, pySlice_length, h]
+
+theorem zipWith_append_split {β γ δ : Type} (t : β → γ → δ) :
+    ∀ (m rest : List β) (Y : List γ),
+      List.zipWith t (m ++ rest) Y = List.zipWith t m (Y.take m.length) ++ List.zipWith t rest (Y.drop m.length)
+  | [], rest, Y => by simp
+  | a :: m, rest, [] => by simp
+  | a :: m, rest, y :: Y => by
+    simp only [List.cons_append, List.zipWith_cons_cons, List.length_cons, List.take_succ_cons, List.drop_succ_cons]
+    rw [zipWith_append_split t m rest Y]
+
+/-- membership version of `zipWith` congruence (left list) -/
+theorem zipWith_congr_mem {β γ δ : Type} (f g : β → γ → δ) :
+    ∀ (l : List β) (l' : List γ), (∀ a ∈ l, ∀ b, f a b = g a b) → List.zipWith f l l' = List.zipWith g l l'
+  | [], _, _ => by simp
+  | _ :: _, [], _ => by simp
+  | a :: l, b :: l', h => by
+    simp only [List.zipWith_cons_cons]
+    rw [h a (by simp) b, zipWith_congr_mem f g l l' (fun a ha b => h a (by simp [ha]) b)]
+
+/-- **Hstack = sum over the batches.**  Splitting `Y` by the lengths of the chunks `ms` (what `Hstack(axis=0)`
+    does with the sub-operators' row counts), pairing each chunk with its part and summing the per-coil
+    contributions, is the single sum over the concatenated coils. -/
+theorem splitRows_zip_sum {α β γ : Type} [AddCommMonoid α] (t : β → γ → α) :
+    ∀ (ms : List (List β)) (Y : List γ),
+      (List.zipWith (fun m y => (List.zipWith t m y).sum) ms (splitRows (ms.map List.length) Y)).sum
+        = (List.zipWith t ms.flatten Y).sum
+  | [], Y => by simp [splitRows]
+  | m :: ms, Y => by
+    simp only [List.map_cons, splitRows, List.zipWith_cons_cons, List.sum_cons, List.flatten_cons]
+    rw [splitRows_zip_sum t ms (Y.drop m.length), zipWith_append_split, List.sum_append]
+
+/-- per-coil pairing used for per-coil weights: `zipWith g mps (zipWith h sw Y)` pairs coil, weight row, data row -/
+theorem zipWith_zipWith_pair {β γ δ ε ζ : Type} (g : β → ε → ζ) (h : γ → δ → ε) :
+    ∀ (a : List β) (s : List γ) (Y : List δ),
+      List.zipWith g a (List.zipWith h s Y)
+        = List.zipWith (fun (p : β × γ) y => g p.1 (h p.2 y)) (List.zipWith Prod.mk a s) Y
+  | [], _, _ => by simp
+  | _ :: _, [], _ => by simp
+  | _ :: _, _ :: _, [] => by simp
+  | a :: as, s :: ss, y :: Y => by
+    simp only [List.zipWith_cons_cons]
+    rw [zipWith_zipWith_pair g h as ss Y]
+
+/-! ### lists as index functions -/
+
+/-- a list's sum is the finite sum of its entries -/
+theorem list_sum_eq_range {α : Type} [AddCommMonoid α] (z : α) :
+    ∀ l : List α, l.sum = ∑ i ∈ Finset.range l.length, l.getD i z
+  | [] => by simp
+  | a :: l => by
+    rw [List.sum_cons, List.length_cons, Finset.sum_range_succ', list_sum_eq_range z l, add_comm]
+    simp
+
+theorem getD_of_lt {β : Type} (l : List β) (i : Nat) (h : i < l.length) (d : β) : l.getD i d = l[i] := by
+  simp [List.getD_eq_getElem?_getD, h]
+
+theorem getD_map_lt {β γ : Type} (f : β → γ) (l : List β) (i : Nat) (h : i < l.length) (d : γ) (d' : β) :
+    (l.map f).getD i d = f (l.getD i d') := by
+  rw [getD_of_lt _ _ (by simpa using h), getD_of_lt _ _ h, List.getElem_map]
+
+theorem getD_zipWith_lt {β γ δ : Type} (f : β → γ → δ) (a : List β) (b : List γ) (i : Nat)
+    (ha : i < a.length) (hb : i < b.length) (d : δ) (da : β) (db : γ) :
+    (List.zipWith f a b).getD i d = f (a.getD i da) (b.getD i db) := by
+  rw [getD_of_lt _ _ (by simp [ha, hb]), getD_of_lt _ _ ha, getD_of_lt _ _ hb, List.getElem_zipWith]
+
+theorem getD_range_map_lt {γ : Type} (f : Nat → γ) (n i : Nat) (h : i < n) (d : γ) :
+    ((List.range n).map f).getD i d = f i := by
+  rw [getD_of_lt _ _ (by simpa using h)]; simp
+
+/-- sum of a `zipWith` over two lists of the same length `n` as an indexed sum -/
+theorem zipWith_sum_eq_range {α β γ : Type} [AddCommMonoid α] (f : β → γ → α) (a : List β) (b : List γ) (n : Nat)
+    (ha : a.length = n) (hb : b.length = n) (da : β) (db : γ) :
+    (List.zipWith f a b).sum = ∑ i ∈ Finset.range n, f (a.getD i da) (b.getD i db) := by
+  rw [list_sum_eq_range (f da db)]
+  have hl : (List.zipWith f a b).length = n := by simp [ha, hb]
+  rw [hl]
+  apply Finset.sum_congr rfl
+  intro i hi
+  have hi' : i < n := Finset.mem_range.mp hi
+  exact getD_zipWith_lt f a b i (by omega) (by omega) _ da db
 
 end SigpyVerif.C16
